@@ -261,6 +261,56 @@ def default_limit(ctx):
         shutil.rmtree(d, ignore_errors=True)
 
 
+def project_config(ctx):
+    """an importable project-wide `monkeytype_config` whose CONFIG has a limit of 5, while the session at hand is started with
+    limit 0 (explicitly through trace_calls, and through monkeytype.trace with a config that answers 0): the limit that was
+    supplied is the one that counts"""
+    import sys
+    import fx_cfg
+    import fx_target
+    from monkeytype.tracing import CallTraceLogger, trace_calls
+    d = tempfile.mkdtemp(prefix="c06p-")
+    with open(os.path.join(d, "monkeytype_config.py"), "w") as f:
+        f.write("from monkeytype.config import DefaultConfig\n\n\nclass ProjectConfig(DefaultConfig):\n    def max_typed_dict_size(self):\n        return 5\n\n\nCONFIG = ProjectConfig()\n")
+    sys.path.insert(0, d)
+    sys.modules.pop("monkeytype_config", None)
+    try:
+        class Keep(CallTraceLogger):
+            def __init__(self):
+                self.traces = []
+
+            def log(self, t):
+                self.traces.append(t)
+
+        spec = ["PROJECT-CONFIG"]
+        ctx.case(spec, True, ["project-config-with-another-limit"])
+        lg = Keep()
+        code = fx_target.ident.__code__
+        with trace_calls(lg, 0, lambda c: c is code):
+            fx_target.ident({"a": 1, "b": "x"})
+            fx_target.ident([{"id": 1}])
+        tv = [(T, []) for t in lg.traces for T in list(t.arg_types.values()) + [t.return_type] if T is not None]
+        if not tv:
+            raise core.HarnessError("project_config: nothing traced")
+        check_types(ctx, spec + ["trace_calls"], tv, 0, "infer")
+        db = os.path.join(d, "p.sqlite3")
+        os.environ.update(MTV_DB=db, MTV_K="0", MTV_RW="noop")
+        with monkeytype.trace(fx_cfg.CONFIG):
+            fx_target.ident({"a": 1, "b": "x"})
+            fx_target.boxed({"id": 1})
+        con = sqlite3.connect(db)
+        raw = con.execute("select arg_types, return_type, yield_type from monkeytype_call_traces where module = 'fx_target'").fetchall()
+        con.close()
+        if any(c and "is_typed_dict" in c for row in raw for c in row):
+            ctx.fail("C06/store:typeddict-with-limit-zero", spec + ["monkeytype.trace"], "a project-wide monkeytype_config with limit 5 is importable; the session was started with limit 0 and stored a TypedDict", raise_=False)
+    except core.Violation as v:
+        ctx.record_violation(v.signature, v.spec, v.message)
+    finally:
+        sys.path.remove(d)
+        sys.modules.pop("monkeytype_config", None)
+        shutil.rmtree(d, ignore_errors=True)
+
+
 def do_case(ctx, specs, k, e2e, rw):
     vs = [vals.build(s) for s in specs]
     spec = ["T", specs, k]
@@ -308,6 +358,8 @@ def shard(ctx):
     try:
         if ctx.shard == 0:
             default_limit(ctx)
+        if ctx.shard == 1 % ctx.nshards:
+            project_config(ctx)
 
         def f1(ctx):
             @given(st.one_of(st.tuples(dict_rich(), st.integers(0, 1000)).map(lambda p: (p[0], vals.k_for(p[0], p[1]))),
@@ -336,6 +388,8 @@ def run(ctx):
 def replay(ctx, case):
     if case[0] == "DEFAULT-LIMIT":
         return default_limit(ctx)
+    if case[0] == "PROJECT-CONFIG":
+        return project_config(ctx)
     if case[0] == "E2E":
         e = E2E()
         try:
